@@ -30,7 +30,7 @@ var c07Templates = []string{
 	`filter(Items, {.Next.ID > 0})`,
 	`any(PItems, {.Name == "zz"})`,
 	`map(Ints, {[#, # / (# - 1)]})`,
-	`one(1..N, {FnI(#) > 10})`,
+	`one(1..N, {FnI(#) > 10})`, `map(1..3, {AddA(#)})`, `FnEnv(A) + AddA(B)`, `AddA(1)`, `FnEnv(2) * 2`, `count(Ints, {AddA(#) > FnEnv(#)})`,
 	`map(1..N, {Inc(#)})`,
 	`len(Ints[1/Z:])`,
 	`[1..N, 1..N, 1..N, 1..N]`,
